@@ -325,6 +325,21 @@ class _Inliner:
                         tgt = st.targets[0]
                         if not _ends(body):
                             return None
+                        # `x = helper(..)` where the helper builds a local and returns it: the local *is* x
+                        rvals = [r.value for b_ in body for r in ast.walk(b_) if isinstance(r, ast.Return)]
+                        caller_names = _names(caller.body) | {a.arg for a in caller.args.args}
+                        if rvals and all(isinstance(v, ast.Name) for v in rvals) and len({v.id for v in rvals}) == 1 and \
+                                rvals[0].id in _stores(body) and rvals[0].id not in dict(bound) and \
+                                (tgt.id not in _names(body) or tgt.id == rvals[0].id) and \
+                                not (tgt.id in caller_names and any(isinstance(x, ast.Name) and x.id == tgt.id and
+                                                                    isinstance(x.ctx, ast.Load) for b_ in pre for x in ast.walk(b_))):
+                            body = [_Ren({rvals[0].id: tgt.id}).visit(b_) for b_ in body]
+                            new = _map_tail_returns(body, lambda r: None)
+                            self.log.append((caller.name, h.name))
+                            res = pre + new
+                            for s_ in res:
+                                ast.fix_missing_locations(s_)
+                            return res or [ast.copy_location(ast.Pass(), st)]
                         f = lambda r: ast.copy_location(ast.Assign(targets=[copy.deepcopy(tgt)], value=r.value if r.value
                                                                    is not None else ast.Constant(value=None), lineno=r.lineno), r)
                         new = _map_tail_returns(body, f)
@@ -626,3 +641,44 @@ def unrolled(fn):
     f._parent = getattr(fn, "_parent", None)
     f._unrolled = log
     return f
+
+
+def renamed(fn, mapping):
+    """view of fn with local names replaced (mapping old -> canonical role name); used by rules that identify a local by
+    what it is defined as (its role) and are written against the names the package uses today"""
+    f = clone(fn)
+    if mapping:
+        f = _Ren(dict(mapping)).visit(f)
+    ast.fix_missing_locations(f)
+    for a in ("_qual", "_mod", "_cls", "_file", "_role"):
+        if hasattr(fn, a):
+            setattr(f, a, getattr(fn, a))
+    for n in ast.walk(f):
+        n._file = getattr(fn, "_file", None)
+        for c in ast.iter_child_nodes(n):
+            c._parent = n
+    f._parent = getattr(fn, "_parent", None)
+    return f
+
+
+def dxdtf_roles(fn):
+    """make_dxdtf: local name -> role name (k, sub, sto, chemostats), recognised by definition"""
+    m = {}
+    for st in ast.walk(fn):
+        if isinstance(st, ast.Assign) and len(st.targets) == 1 and isinstance(st.targets[0], ast.Name):
+            t = ast.unparse(st.value).replace(" ", "")
+            nm = st.targets[0].id
+            if ".ssto(" in t and isinstance(st.value, ast.ListComp):
+                m[nm] = "sub"
+            elif ".dsto(" in t and isinstance(st.value, ast.ListComp):
+                m[nm] = "sto"
+            elif isinstance(st.value, ast.ListComp) and "self.chemostats[" in t and t.startswith("[1-"):
+                m[nm] = "chemostats"
+    # the list the split reactions' constants are appended to
+    for lp in [n for n in fn.body if isinstance(n, ast.For)]:
+        for c in ast.walk(lp):
+            if isinstance(c, ast.Call) and isinstance(c.func, ast.Attribute) and c.func.attr == "append" and \
+                    isinstance(c.func.value, ast.Name) and c.func.value.id not in m and ast.unparse(lp.iter) == "reactions" \
+                    and c.func.value.id != "reactions":
+                m[c.func.value.id] = "k"
+    return {a: b for a, b in m.items() if a != b}
